@@ -51,7 +51,7 @@ theorem disabled_rejected_in_callback (base : Path → Res Unit) (s : St) (hs : 
     cases this
     simp [stepPath, gate_of_consults hc, hoff]
   | none =>
-    rcases names_not_consulted p sw hn hc with rfl | rfl <;>
+    rcases names_not_consulted p sw hn hc with rfl | rfl | rfl | rfl | rfl <;>
       simp [stepPath, gate, Path.consults, entryRejects, hlp]
 
 /-- **disabled ⇒ rejected.** When the switch an entry path names is off, the call is rejected, whatever
@@ -401,12 +401,13 @@ example :
     (Path.all.filter (fun p => stepPath base s p != .ok ())) =
       [.pairWithdrawHook, .pairWithdrawDirect, .pairSwapDirectCw20,
        .trioWithdrawHook, .trioWithdrawDirect, .trioSwapDirectCw20,
-       .vaultWithdrawHook, .vaultWithdrawDirect, .vaultConfigStranger, .vaultCallbackExternal] := by decide
+       .vaultWithdrawHook, .vaultWithdrawDirect, .vaultConfigStranger, .vaultCallbackExternal,
+       .pairHookMalformed, .trioHookMalformed, .vaultHookMalformed] := by decide
 
 example : Reachable (fun _ => .ok ()) ⟨⟨true, false, true⟩, true, 0⟩ :=
   ⟨⟨Flags.allOn, true, 0⟩, [.setFlags true ⟨true, false, true⟩], rfl, rfl⟩
 
-/-- all 2^3 combinations × all 26 paths: the model's verdict is `err` exactly when the named switch is
+/-- all 2^3 combinations × all 29 paths: the model's verdict is `err` exactly when the named switch is
     off or the entry point rejects the call (enumerated by the kernel) -/
 example :
     ∀ a b c : Bool, ∀ p ∈ Path.all,
